@@ -754,6 +754,17 @@ class FnTrans:
                 for l in ls:
                     mm = re.match(r'%[-\w$.]+ = bitcast i8\* (%[-\w$.]+) to (.*)\*$', l)
                     if mm and mm.group(1) in allocs: allocs[mm.group(1)].add(mm.group(2))
+            # the result is stored, as i8*, into a slot that is really a T* (Array<T>::items seen through an i8** cast): element type T
+            slot_types = {}
+            for bb, ls in blocks:
+                for l in ls:
+                    mm = re.match(r'(%[-\w$.]+) = bitcast (.*)\*\* %[-\w$.]+ to i8\*\*$', l)
+                    if mm: slot_types[mm.group(1)] = mm.group(2)
+            if slot_types:
+                for bb, ls in blocks:
+                    for l in ls:
+                        mm = re.match(r'store i8\* (%[-\w$.]+), i8\*\* (%[-\w$.]+)(?:,|$)', l)
+                        if mm and mm.group(1) in allocs and mm.group(2) in slot_types and not allocs[mm.group(1)]: allocs[mm.group(1)].add(slot_types[mm.group(2)])
             for v, tys in allocs.items():
                 if len(tys) > 1 and v in alloc_const:
                     # one object of constant size viewed through several pointer types (inlined member copies): the struct type of exactly that size
